@@ -89,11 +89,11 @@ def run(ctx):
     res = _db.replay(ctx, binp, path, "db", SCOPE, "runs")
     _db.report(ctx, res, "c16-run")
 
-    _db.drive_and_validate(ctx, binp, "db", "seq", 16 if quick else 300, 30, "db-trace-c16.cfg", "seq", 1)
+    _db.drive_and_validate(ctx, binp, "db", "seq", 16 if quick else 200, 30, "db-trace-c16.cfg", "seq", 1)
     # ... and with deltas anywhere in uint64: one jump next to 2^31 / 2^32 / 2^62 / 2^63 / 2^64-1 and small steps
     # across it, or arbitrary deltas (the invariant of this configuration leaves IndexMirror out: a sequence put
     # that wraps onto a live key - finding seqOverflow - replaces the record without removing its index entries)
-    _db.drive_and_validate(ctx, binp, "db", "seqwide", 24 if quick else 300, 30, "db-trace-c16.cfg", "seqwide", 3)
+    _db.drive_and_validate(ctx, binp, "db", "seqwide", 24 if quick else 200, 30, "db-trace-c16.cfg", "seqwide", 3)
     if not quick:
         _db.drive_and_validate(ctx, binp, "leader", "seq", 40, 30, "db-trace-c16.cfg", "seq-leader", 2)
         _db.drive_and_validate(ctx, binp, "leader", "seqwide", 40, 30, "db-trace-c16.cfg", "seqwide-leader", 4)
